@@ -27,7 +27,7 @@ fn spec(t: Tier) -> Spec {
     Spec {
         id: "C18",
         level: "exploration",
-        rule: format!("every list of <= {} starting points over {} spellings (directory, ./, trailing /, //, /., ../, absolute, missing, file, link to directory with and without trailing /, dangling link, names beginning with ( and !; lists of <= 2 also under -H and -L) (plus, through -files0-from only: the empty name, a name starting with '-', a name containing a newline) is walked by find_main; the -print0 output must be the concatenation, in order, of the per-root reference walks with every path beginning with the root exactly as spelled; each argv list is also given as -files0-from FILE (with and without final NUL) and must give byte-identical output; missing roots must be diagnosed with non-zero status without affecting the others; the no-root case must equal '.'; binary slice: -files0-from - on stdin; scale slice: 3000 starting points (18 000-byte list) on the command line, via -files0-from FILE and via -files0-from - with and without a final NUL; 255, 256, 257 and 512 missing starting points followed by an existing one through the binary (every one diagnosed, exit status non-zero, the existing one walked); non-trivial = list with >= 2 roots or a non-canonical spelling", bounds(t), ARGV_ROOTS.len()),
+        rule: format!("every list of <= {} starting points over {} spellings (directory, ./, trailing /, //, /., ../, absolute, missing, file, link to directory with and without trailing /, dangling link, names beginning with ( and !; lists of <= 2 also under -H and -L) (plus, through -files0-from only: the empty name, a name starting with '-', a name containing a newline) is walked by find_main; the -print0 output must be the concatenation, in order, of the per-root reference walks with every path beginning with the root exactly as spelled; each argv list is also given as -files0-from FILE (with and without final NUL) and must give byte-identical output; missing roots must be diagnosed with non-zero status without affecting the others; the no-root case must equal '.'; binary slice: -files0-from - on stdin; environment cases: a -files0-from list written to a pipe in three pieces; four starting points (one missing) with standard output on /dev/full — all still processed, seen through -fprint; a list holding a name that is not valid UTF-8 (walked, or refused loudly); scale slice: 3000 starting points (18 000-byte list) on the command line, via -files0-from FILE and via -files0-from - with and without a final NUL; 255, 256, 257 and 512 missing starting points followed by an existing one through the binary (every one diagnosed, exit status non-zero, the existing one walked); non-trivial = list with >= 2 roots or a non-canonical spelling", bounds(t), ARGV_ROOTS.len()),
         bound: json!({"max_roots": bounds(t), "argv_spellings": ARGV_ROOTS, "files0_only": FILES0_ONLY}),
         assumptions: vec!["exit status after an empty -files0-from name is not judged (statement: 'diagnosed and skipped')".into()],
         shards: 0,
@@ -383,6 +383,81 @@ fn scale_slice(ctx: &mut Ctx) {
         }
     }
     let _ = std::fs::remove_file(&listf);
+    environment_cases(ctx);
+}
+
+/// (a) the list arrives through a pipe in pieces (a short read is not the end of the list);
+/// (b) standard output cannot be written: every starting point is still processed (seen through a
+/// second action that writes to a file) and the missing one diagnosed; (c) a name in the list that is
+/// not valid UTF-8 is a file name like any other: walked, or refused with a diagnostic and a non-zero
+/// status — never dropped silently.
+fn environment_cases(ctx: &mut Ctx) {
+    use std::io::{Read, Write};
+    use std::process::{Command, Stdio};
+    let many = ctx.sbx.join("many");
+    let exe = crate::engine::repo_bin_dir().join("find");
+    // (a)
+    let child = Command::new(&exe).args(["-files0-from", "-", "-print0"]).current_dir(&many).env_clear().stdin(Stdio::piped()).stdout(Stdio::piped()).stderr(Stdio::piped()).spawn();
+    if let Ok(mut child) = child {
+        let mut si = child.stdin.take().unwrap();
+        let _ = si.write_all(b"n0001\0");
+        let _ = si.flush();
+        std::thread::sleep(std::time::Duration::from_millis(400));
+        let _ = si.write_all(b"n0002\0n00");
+        let _ = si.flush();
+        std::thread::sleep(std::time::Duration::from_millis(300));
+        let _ = si.write_all(b"03\0");
+        drop(si);
+        let mut out = vec![];
+        let _ = child.stdout.take().unwrap().read_to_end(&mut out);
+        let st = child.wait().ok();
+        ctx.rep.evaluations += 1;
+        ctx.rep.nontrivial += 1;
+        ctx.rep.count("environment_cases", 1);
+        if out != b"n0001\0n0002\0n0003\0" || st.and_then(|s| s.code()) != Some(0) {
+            ctx.rep.violation("C18 a -files0-from list arriving through a pipe in pieces is not read to its end", format!("three writes n0001\\0 | n0002\\0n00 | 03\\0: printed {:?}, status {:?}", String::from_utf8_lossy(&out), st), json!({"prop":"C18","scale":true}));
+        }
+    }
+    // (b)
+    let log = ctx.sbx.join(".mc-fprint.log");
+    let _ = std::fs::remove_file(&log);
+    let logs = log.to_string_lossy().to_string();
+    for action in [vec!["-print"], vec!["-print0"], vec!["-printf", "%p\\n"]] {
+        let _ = std::fs::remove_file(&log);
+        let mut args: Vec<&str> = vec!["n0001", "missing", "./n0002", "n0003", "-fprint", &logs];
+        args.extend(action.iter());
+        let o = Command::new(&exe).args(&args).current_dir(&many).env_clear().stdin(Stdio::null()).stdout(Stdio::from(std::fs::OpenOptions::new().write(true).open("/dev/full").unwrap())).stderr(Stdio::piped()).output();
+        let Ok(o) = o else { continue };
+        let walked = std::fs::read_to_string(&log).unwrap_or_default();
+        let err = String::from_utf8_lossy(&o.stderr).to_string();
+        ctx.rep.evaluations += 1;
+        ctx.rep.nontrivial += 1;
+        ctx.rep.count("environment_cases", 1);
+        if walked != "n0001\n./n0002\nn0003\n" || !err.contains("missing") || matches!(o.status.code(), Some(0) | Some(101) | None) {
+            ctx.rep.violation("C18 an unwritable standard output keeps the remaining starting points from being processed (or the missing one from being diagnosed)", format!("find {:?} > /dev/full: entries reaching -fprint {:?}, status {:?}, stderr {:?}", args, walked, o.status, err.chars().take(300).collect::<String>()), json!({"prop":"C18","scale":true}));
+        }
+    }
+    let _ = std::fs::remove_file(&log);
+    // (c)
+    use std::os::unix::ffi::OsStrExt;
+    let odd = many.join(std::ffi::OsStr::from_bytes(b"b\xff"));
+    let _ = std::fs::write(&odd, b"");
+    for final_nul in [true, false] {
+        let mut data = b"n0001\0b\xff\0n0002".to_vec();
+        if final_nul {
+            data.push(0);
+        }
+        let got = run_find_bin(&["-files0-from", "-", "-print0"], &many, Some(&data));
+        ctx.rep.evaluations += 1;
+        ctx.rep.nontrivial += 1;
+        ctx.rep.count("environment_cases", 1);
+        let walked_all = got.out == b"n0001\0b\xff\0n0002\0" && got.code == Ok(0);
+        let refused = got.code.as_ref().is_ok_and(|c| *c != 0) && !got.err.is_empty() && !got.out.windows(2).any(|w| w == b"b\xff");
+        if !(walked_all || refused) {
+            ctx.rep.violation("C18 a name in the -files0-from list that is not valid UTF-8 is dropped silently", format!("list n0001\\0b\\xff\\0n0002: printed {:?}, status {:?}, stderr {:?}", String::from_utf8_lossy(&got.out), got.code, String::from_utf8_lossy(&got.err)), json!({"prop":"C18","scale":true}));
+        }
+    }
+    let _ = std::fs::remove_file(&odd);
 }
 
 fn replay(case: &Value, ctx: &mut Ctx) -> Option<String> {
